@@ -39,6 +39,8 @@ def make(case):
     except Exception:  # noqa: BLE001
         return None
     n = case["nbytes"]
+    f0 = T[2][0][1] if T[0] == "struct" and T[2] else None
+    char_first = bool(f0 and not T[2][0][2] and (f0[0] == "char" or (f0[0] == "arr" and f0[1][0] == "char" and isinstance(f0[2], int))))
 
     def run(ctx):
         data = ctx.bytes("b", n)
@@ -68,6 +70,16 @@ def make(case):
             if cut[0] == "value" and full[0] == "value":
                 ctx.check(f"cut@{k}: a value returned from the shortened input equals the one from the complete input",
                           R.lib_eq(T, cut[1], full[1]))
+            if char_first and k > 0:
+                # the T(bytes) call form on the same shortened input
+                try:
+                    cv = ("value", cls(data[:k]))
+                except Exception as e:  # noqa: BLE001
+                    cv = ("error", H.classify(e))
+                if short:
+                    ctx.check(f"cut@{k}: T(bytes) on a shortened input is not parsed to a value either", cv[0] == "error", cv[0])
+                elif cv[0] == "value" and full[0] == "value":
+                    ctx.check(f"cut@{k}: T(bytes) value equals the complete parse", R.lib_eq(T, cv[1], full[1]))
         if full[0] == "value":
             again = _parse(cls, ctx.stream(data))
             ctx.check("no residue: parse after failed parses == parse before", again[0] == "value" and R.lib_eq(T, again[1], full[1]) is not False
